@@ -12,7 +12,10 @@ import (
 // BuildMessageLate builds a flow-mod, group-mod or packet-out (also inside a bundle-add) in a top-down history: the
 // variable-size Nicira actions (conntrack with nested actions, note, learn) are attached to their list while still
 // empty and grow afterwards through their own adders/fields. Returns the number of actions that grew late.
-func BuildMessageLate(r *rec.Rec) (util.Message, int, error) {
+func BuildMessageLate(r *rec.Rec, deep ...bool) (util.Message, int, error) {
+	// deep: NAT actions nested in a conntrack action are in turn attached to it without their ranges and get them
+	// afterwards (growth two levels down; the conntrack action caches its length when the NAT is attached)
+	goDeep := len(deep) > 0 && deep[0]
 	stripped := r.Clone()
 	var full, bare [][]*rec.Rec
 	collect(r, &full)
@@ -55,7 +58,18 @@ func BuildMessageLate(r *rec.Rec) (util.Message, int, error) {
 			}
 			switch x := lists[i][j].(type) {
 			case *of.NXActionConnTrack:
-				nested, err := BuildActions(a.List("actions"))
+				nrecs := a.List("actions")
+				if goDeep {
+					bare := make([]*rec.Rec, len(nrecs))
+					for k, nr := range nrecs {
+						bare[k] = nr
+						if nr.K == "nx_nat" && nr.U("range_present") != 0 {
+							bare[k] = nr.Clone().Set("range_present", 0)
+						}
+					}
+					nrecs = bare
+				}
+				nested, err := BuildActions(nrecs)
 				if err != nil {
 					return nil, 0, err
 				}
@@ -64,6 +78,14 @@ func BuildMessageLate(r *rec.Rec) (util.Message, int, error) {
 				} else {
 					for _, n := range nested {
 						x.AddAction(n)
+					}
+				}
+				if goDeep {
+					for k, nr := range a.List("actions") {
+						if nat, ok := nested[k].(*of.NXActionCTNAT); ok && nr.K == "nx_nat" && nr.U("range_present") != 0 {
+							ApplyNATRanges(nat, nr)
+							late++
+						}
 					}
 				}
 			case *of.NXActionNote:
